@@ -183,7 +183,12 @@ class LayoutScenario(explore.Scenario):
                 ["blocks", "B2", "update", ["K1", "K2"]],
                 ["ivs", "S2", "update", ["B1", "B2"]],
                 ["ivs", "S1", "clear", None], ["ivs", "S1", "update", ["B4"]],
-                ["ivs", "S1", "discard", "B1"], ["ivs", "S2", "add", "B1"]]
+                ["ivs", "S1", "discard", "B1"], ["ivs", "S2", "add", "B1"],
+                # operands that are live owning collections of another parent
+                ["blocks", "B2", "ior_live", "B1"],
+                ["blocks", "B1", "update_live", "B2"],
+                ["ivs", "S2", "ior_live", "S1"],
+                ["ivs", "S1", "ixor_live", "S2"]]
         for t in ("M2", "M1", None):
             out.append(["smove", "S2", t])
         out += [["mmove", "M1", None], ["mmove", "M1", "I1"]]
@@ -215,6 +220,15 @@ class LayoutScenario(explore.Scenario):
                     coll.clear()
                 elif op[2] == "update":
                     coll.update([O[x] for x in op[3]])
+                elif op[2].endswith("_live"):
+                    other = (O[op[3]].blocks if kind == "blocks"
+                             else O[op[3]].byte_intervals)
+                    if op[2] == "update_live":
+                        coll.update(other)
+                    elif op[2] == "ior_live":
+                        coll |= other
+                    else:
+                        coll ^= other
                 else:
                     getattr(coll, op[2])(O[op[3]])
             elif kind == "smove":
